@@ -93,7 +93,10 @@ def audit() -> list[str]:
     Returns a list of offending 'file:line: text'."""
     bad = []
     for f in sorted(THEORIES.rglob("*.v")):
-        text = strip_coq_comments(f.read_text())
+        try:
+            text = strip_coq_comments(f.read_text())
+        except FileNotFoundError:       # Gen/* is rewritten by other properties' runs: a file may vanish meanwhile
+            continue
         # strings may legitimately contain words; drop string literals
         text_nos = re.sub(r'"(?:[^"]|"")*"', '""', text)
         for ln, line in enumerate(text_nos.splitlines(), 1):
